@@ -102,7 +102,7 @@ def check(ctx):
     tlc_scripts, gstats = generate(ctx)
     build_s = cargo_build(ctx, ["notif"])
     rng = random.Random(ctx.seed + 12)
-    nrand = 60 if ctx.quick() else 2000
+    nrand = 60 if ctx.quick() else 4000
     scripts = nu.stream_families(ctx.seed, ctx.tier) + tlc_scripts + [nu.stream_random_script(rng, i, ctx.seed) for i in range(nrand)]
     ctx.scripts_by_id = {s["id"]: s for s in scripts}
     lines, summs = [], []
@@ -116,6 +116,7 @@ def check(ctx):
         raise ToolError("harness trouble: %s" % summs)
     segs, info, nseg, nev, rejects = validate(ctx, lines)
     violations = collect(ctx, rejects)
+    nu.save_known_repros(ctx, violations)
     cov = evidence(mc, gstats, summs, segs, info, nseg, nev, scripts)
     return conclude(ctx, "model_checking", cov, violations, ASSUME)
 
